@@ -18,7 +18,7 @@ Alphabet == {
   Region("circle", "", Plain3, NoProps, FALSE),
   Region("circle", "-", Plain3, NoProps, FALSE),
   Region("circle", "+", Plain3, [color |-> "red", text |-> "a b"], FALSE),
-  Region("circle", "", Plain3, [include |-> "0", tag |-> "t1"], FALSE),
+  Region("circle", "", Plain3, [include |-> "0", tag |-> "t1", tag2 |-> "Group 2"], FALSE),          \* two tags on one line (a list of two)
   Region("box", "", Box5, NoProps, TRUE),
   [k |-> "composite", props |-> P([color |-> "yellow"])], [k |-> "composite", props |-> P([include |-> "0"])],
   [k |-> "comment"], [k |-> "badshape"], [k |-> "badword"],
